@@ -39,7 +39,7 @@ LIBSRC  := $(filter-out $(REPO)/src/abg-ctf-reader.cc,$(wildcard $(REPO)/src/*.c
 LIBOBJ  := $(patsubst $(REPO)/src/%.cc,$(B)/lib/%.o,$(LIBSRC))
 TOOLS   := abidw abidiff abilint abicompat abipkgdiff abisym
 WRAP_S  := -Wl,--wrap=system,--wrap=mkdtemp
-WRAP_T  := -Wl,--wrap=pthread_create,--wrap=pthread_join,--wrap=pthread_mutex_lock,--wrap=pthread_mutex_trylock,--wrap=pthread_mutex_unlock,--wrap=pthread_cond_wait,--wrap=pthread_cond_timedwait,--wrap=pthread_cond_signal,--wrap=pthread_cond_broadcast,--wrap=sysconf
+WRAP_T  := -Wl,--wrap=pthread_create,--wrap=pthread_join,--wrap=pthread_mutex_lock,--wrap=pthread_mutex_trylock,--wrap=pthread_mutex_unlock,--wrap=pthread_cond_wait,--wrap=pthread_cond_timedwait,--wrap=pthread_cond_signal,--wrap=pthread_cond_broadcast,--wrap=sysconf,--wrap=_Znwm
 
 .SECONDARY:
 .PHONY: all queue_sim toolsims clean
